@@ -656,11 +656,6 @@ impl<'d> Interp<'d> {
     /// fail even when no row ever reaches the expression.
     fn probe_uncorrelated_scalars(&self, sel: &Select, outer: Option<&Env>) {
         let mut subs: Vec<&Query> = vec![];
-        let mut grab = |e: &'_ Expr| {
-            // (lifetimes: collected below through raw walk)
-            let _ = e;
-        };
-        let _ = &mut grab;
         let mut exprs: Vec<&Expr> = sel.items.iter().map(|i| &i.expr).collect();
         if let Some(w) = &sel.where_ {
             exprs.push(w);
